@@ -50,6 +50,7 @@ type world struct {
 	dex           *dexWorld
 	slash         *slashWorld
 	lastBlockTxs  [][]byte
+	digestAt      map[uint64][]byte // raw state digest of the chain at each height (first observation)
 	lastNonce     map[string]uint64
 	msig          *multisig
 	daoMint       map[string]uint64 // DAO transfers that mint: tx bytes -> amount
